@@ -79,6 +79,20 @@ Section Wrap.
     end.
 End Wrap.
 
+(* ---- expiry as the code computes it (middleware/cache types.go: CacheEntry.IsExpired =
+   remaining(time.Now()) <= 0, remaining = ttl - (now - stored), capped by cutUntil - now when
+   a cut is set) — instants and durations in ns on the ideal line; [go_CacheEntry_IsExpired]
+   is srcgen's translation with the clock as the parameter [now] (Proofs_wrap.gen_is_expired) ---- *)
+Definition remaining_model (stored ttl cut now : Z) : Z :=
+  let rem := (ttl - (now - stored))%Z in
+  if Z.eqb cut 0 then rem else Z.min rem (cut - now)%Z.
+Definition expired_model (stored ttl cut now : Z) : bool := (remaining_model stored ttl cut now <=? 0)%Z.
+(* the wrappers' [expired] predicate at instant [now], entries given by identity *)
+Definition expired_at (ent : N -> T_CacheEntry) (now : Z) (v : N) : bool := go_CacheEntry_IsExpired now (ent v).
+(* the shape of a wrapper call, expiry aside *)
+Definition wshape (c : call) : bool :=
+  match c with CSwc _ _ _ | CGet _ | CDel _ | CCad _ _ => true | _ => false end.
+
 (* ---- recorded histories of wrapper calls (Run.v, CaseWLin): Set k e is [LStore],
    Remove k is [LRem], Get k -> r is [LGet]; read through the fresh view ---- *)
 Definition wview_hop (expired : N -> bool) (h : hop) : hop :=
